@@ -278,6 +278,22 @@ def run(tier, seed):
     for rep in range(4 if tier == "quick" else 12):
         files, tests, chain = c08.rescan_corpus()
         emit_venv("vc%d" % rep, files, [("fx_" + m, "plugin") for m in chain], ask=tests[0])
+    # two editable installs side by side: the project itself (inside the workspace) and a library outside it - each is
+    # classified by where ITS source lives
+    sp = "venv/lib/python3.12/site-packages"
+    two = {
+        "conftest.py": FX.format("project_fx"),
+        "test_ws.py": "def test_w(inner_fx, outer_fx):\n    pass\n",
+        "plugins_in/inner_pkg/__init__.py": "", "plugins_in/inner_pkg/plugin.py": FX.format("inner_fx"),
+        "@EXT/outer_src/outer_pkg/__init__.py": "", "@EXT/outer_src/outer_pkg/plugin.py": FX.format("outer_fx"),
+        sp + "/inner_pkg-0.1.dist-info/entry_points.txt": "[pytest11]\ninner = inner_pkg.plugin\n",
+        sp + "/inner_pkg-0.1.dist-info/direct_url.json": '{"url": "file:///x", "dir_info": {"editable": true}}',
+        sp + "/__editable__.inner_pkg-0.1.pth": "@BASE@/ws/plugins_in\n",
+        sp + "/outer_pkg-0.1.dist-info/entry_points.txt": "[pytest11]\nouter = outer_pkg.plugin\n",
+        sp + "/outer_pkg-0.1.dist-info/direct_url.json": '{"url": "file:///y", "dir_info": {"editable": true}}',
+        sp + "/__editable__.outer_pkg-0.1.pth": "@BASE@/ext/outer_src\n",
+    }
+    emit_venv("vtwo", two, [("inner_fx", "plugin"), ("outer_fx", "third")])
     for i in range(n):
         rng = r.rng
         if i % 2 == 0:
@@ -286,11 +302,15 @@ def run(tier, seed):
             cases.case(name, {"kind": "imports"})
             for k, (p, t) in enumerate(sorted(files.items())):
                 cases.text("f%d" % k, t); cases.raw("disk %s f%d" % (p, k))
-            if rng.random() < 0.35:
+            importing = [m["path"] for m in mods if len(m["body"]) > 1]
+            if rng.random() < 0.35 or (i % 8 == 0 and importing):
                 # some fixture modules are open in the editor (indexed, same text as on disk) before the scan starts:
                 # the scan meets them as import targets that are cached already - what THEY import is found all the same
+                # (every fourth graph: a module that itself imports another one is among them)
                 keys = sorted(files)
                 early = rng.sample([m["path"] for m in mods], min(len(mods), rng.choice([1, 2])))
+                if i % 8 == 0 and importing and not set(early) & set(importing):
+                    early.append(importing[0])
                 for pth in early:
                     cases.op("analyze", pth, "f%d" % keys.index(pth))
                 r.stats["opened_before_scan"] = r.stats.get("opened_before_scan", 0) + len(early)
